@@ -771,6 +771,17 @@ def bounded_log_to_file(tier, seed):
         for j, t in enumerate(sorted(new)):
             if f2.readField(n_complete + j)[1].tobytes() != new[t].tobytes():
                 fails.append(f'{tag}: record appended by the resumed run differs from its logged solution')
+        # overwrite protection is still in force after a resumed run (the switch is process-global state)
+        size_after = os.path.getsize(fn)
+        try:
+            g = F.Scalar(np.complex128, fn)
+            g.setHeader(3)
+            g.initialize()
+            fails.append(f'{tag}: existing file overwritten by initialize() after a resumed run')
+        except FileExistsError:
+            pass
+        if os.path.getsize(fn) != size_after:
+            fails.append(f'{tag}: file size changed by a refused initialize() after the resumed run')
 
     try:
         for nprocs in (1, 2):
